@@ -848,6 +848,10 @@ func randFloat32(fr *frame, args []value) value {
 		}
 		return float32(1<<24-1) / (1 << 24)
 	}
+	if b := ex.consultPolicy(fr, "Float32", false, 0); b > 0 {
+		ex.recordDraw("Float32", false, nil, ex.ctx.Const(32, 0))
+		return float32(0) // the harness restricts this draw to its lower extreme
+	}
 	v := ex.freshVar("draw:Float32", 32)
 	ex.assume(ex.ctx.Cmp(smt.OUlt, v, ex.ctx.Const(32, 2)))
 	k := ex.concretize(v)
